@@ -192,7 +192,7 @@ fn single_history(rng: &mut Rng, rep: &mut Report, case_no: u64, len: usize) {
     for _step in 0..len {
         let s = *rng.pick(&hot);
         let i = s.0 as usize;
-        let op = rng.below(16);
+        let op = rng.below(18);
         let desc;
         let mut outcome: Option<(Want, Want, String)> = None; // (got, want, message if panic)
         macro_rules! attempt {
@@ -464,6 +464,53 @@ fn single_history(rng: &mut Rng, rep: &mut Report, case_no: u64, len: usize) {
                 model.st = before;
                 outcome = Some((Want::None, Want::None, String::new()));
             }
+            15 | 16 => {
+                // a fetch made from a destructor that runs while the thread is unwinding from an
+                // unrelated panic: same rules as anywhere else (the destructor catches the outcome)
+                let excl = op == 16;
+                let typed = s.dy() == 0 && rng.chance(1, 2);
+                desc = format!("{}({}) from a destructor during unwinding", match (typed, excl) { (true, true) => "try_fetch_mut", (true, false) => "try_fetch", (false, true) => "try_fetch_mut_by_id", (false, false) => "try_fetch_by_id" }, s.label());
+                let want = if absent {
+                    Want::None
+                } else if (excl && model.can_excl(s)) || (!excl && model.can_shared(s)) {
+                    Want::Guard
+                } else {
+                    Want::Panic(PanicKind::BorrowConflict)
+                };
+                struct OnUnwind<F: FnMut()>(F);
+                impl<F: FnMut()> Drop for OnUnwind<F> {
+                    fn drop(&mut self) {
+                        (self.0)()
+                    }
+                }
+                let got: std::cell::RefCell<Option<(Want, String)>> = std::cell::RefCell::new(None);
+                let r = catch_unwind(AssertUnwindSafe(|| {
+                    let _probe = OnUnwind(|| {
+                        let o = catch_unwind(AssertUnwindSafe(|| -> Option<()> {
+                            match (typed, excl) {
+                                (true, true) => with_ty!(s.ty(), T => world.try_fetch_mut::<T>().map(|_| ())),
+                                (true, false) => with_ty!(s.ty(), T => world.try_fetch::<T>().map(|_| ())),
+                                (false, true) => fetch_w(world, s).map(|_| ()),
+                                (false, false) => fetch_r(world, s).map(|_| ()),
+                            }
+                        }));
+                        *got.borrow_mut() = Some(match o {
+                            Ok(Some(())) => (Want::Guard, String::new()),
+                            Ok(None) => (Want::None, String::new()),
+                            Err(p) => {
+                                let msg = payload_str(&*p);
+                                (Want::Panic(classify(&msg)), msg)
+                            }
+                        });
+                    });
+                    std::panic::panic_any("INJECTED-PANIC scoped (a destructor fetches on the way out)".to_string());
+                }));
+                let _ = r;
+                match got.into_inner() {
+                    Some((g, msg)) => outcome = Some((g, want, msg)),
+                    None => failure = Some(("harness".into(), "the destructor did not run".into())),
+                }
+            }
             _ => {
                 // use a live exclusive guard: write through it; use shared guards: read
                 let mut did = false;
@@ -720,6 +767,156 @@ fn stress(rng: &mut Rng, rep: &mut Report, case_no: u64, nthreads: usize, ops_pe
     }
 }
 
+#[cfg(not(feature = "parallel"))]
+fn upgrade_race(_rng: &mut Rng, _rep: &mut Report, _case_no: u64) {}
+
+/// One attempt of one thread, on the shared logical clock. A guard that was granted can only be
+/// alive inside [t_call, t_drop_end]; it is surely alive inside [t_ret, t_drop_start].
+#[cfg(feature = "parallel")]
+#[derive(Clone, Copy, Debug)]
+struct Att {
+    thread: usize,
+    excl: bool,
+    granted: bool,
+    t_call: u64,
+    t_ret: u64,
+    t_drop_start: u64,
+    t_drop_end: u64,
+}
+
+/// History check of *refusals*: a holder keeps taking a shared guard, drops it and at once asks
+/// for the exclusive one, while 1..3 other threads keep asking for the exclusive guard (and are
+/// refused most of the time). Every attempt is recorded with logical time stamps taken before the
+/// call and after the return / after the drop; afterwards every refusal must be explained by a
+/// conflicting guard that was *granted* to another thread and can have been alive at some instant
+/// of the refused call. A failed attempt never explains a refusal: it must leave no trace.
+#[cfg(feature = "parallel")]
+fn upgrade_race(rng: &mut Rng, rep: &mut Report, case_no: u64) {
+    rep.evaluations += 1;
+    let mut world = World::empty();
+    let s = Slot::new(rng.below(NTYPES), if rng.chance(1, 2) { 0 } else { rng.below(NDYN) });
+    insert_slot(&mut world, s, 1);
+    let world = &world;
+    let clk = AtomicU64::new(1);
+    let stop = AtomicBool::new(false);
+    let attackers = rng.range(1, 3);
+    let rounds = rng.range(150, 600);
+    let seed = rng.next();
+    let typed = s.dy() == 0 && rng.chance(1, 2);
+    let all: std::sync::Mutex<Vec<Att>> = std::sync::Mutex::new(Vec::new());
+    let attempt = |thread: usize, excl: bool, hold: u32, out: &mut Vec<Att>| {
+        let t_call = clk.fetch_add(1, SeqCst);
+        let mut a = Att { thread, excl, granted: false, t_call, t_ret: 0, t_drop_start: 0, t_drop_end: 0 };
+        let r = catch_unwind(AssertUnwindSafe(|| {
+            if excl {
+                let g = if typed { with_ty!(s.ty(), T => world.try_fetch_mut::<T>().map(WGuard::from)) } else { fetch_w(world, s) };
+                let g = g.expect("present");
+                let t_ret = clk.fetch_add(1, SeqCst);
+                for i in 0..hold {
+                    std::hint::black_box(i);
+                }
+                let t_ds = clk.fetch_add(1, SeqCst);
+                drop(g);
+                (t_ret, t_ds)
+            } else {
+                let g = if typed { with_ty!(s.ty(), T => world.try_fetch::<T>().map(RGuard::from)) } else { fetch_r(world, s) };
+                let g = g.expect("present");
+                let t_ret = clk.fetch_add(1, SeqCst);
+                for i in 0..hold {
+                    std::hint::black_box(i);
+                }
+                let t_ds = clk.fetch_add(1, SeqCst);
+                drop(g);
+                (t_ret, t_ds)
+            }
+        }));
+        match r {
+            Ok((t_ret, t_ds)) => {
+                a.granted = true;
+                a.t_ret = t_ret;
+                a.t_drop_start = t_ds;
+                a.t_drop_end = clk.fetch_add(1, SeqCst);
+            }
+            Err(_) => {
+                a.t_ret = clk.fetch_add(1, SeqCst);
+            }
+        }
+        out.push(a);
+    };
+    std::thread::scope(|sc| {
+        let (stop, all, attempt) = (&stop, &all, &attempt);
+        for t in 0..attackers {
+            sc.spawn(move || {
+                let mut rng = Rng::new(mix(seed, 100 + t as u64));
+                let mut mine = Vec::new();
+                while !stop.load(SeqCst) && mine.len() < 200_000 {
+                    attempt(1 + t, true, rng.below(20) as u32, &mut mine);
+                    if rng.chance(1, 6) {
+                        attempt(1 + t, false, rng.below(20) as u32, &mut mine);
+                    }
+                }
+                all.lock().unwrap().extend(mine);
+            });
+        }
+        let mut rng = Rng::new(mix(seed, 7));
+        let mut mine = Vec::new();
+        for _ in 0..rounds {
+            attempt(0, false, rng.below(3000) as u32, &mut mine);
+            // the shared guard is gone: the exclusive one is asked for at once
+            attempt(0, true, rng.below(40) as u32, &mut mine);
+        }
+        stop.store(true, SeqCst);
+        all.lock().unwrap().extend(mine);
+    });
+    let _ = take_panics();
+    let mut atts = all.into_inner().unwrap();
+    atts.sort_by_key(|a| a.t_call);
+    let granted: Vec<Att> = atts.iter().filter(|a| a.granted).cloned().collect();
+    let mut refused = 0usize;
+    let mut problem: Option<(String, String)> = None;
+    for x in atts.iter().filter(|a| !a.granted) {
+        refused += 1;
+        let explained = granted.iter().any(|y| y.thread != x.thread && (x.excl || y.excl) && y.t_call <= x.t_ret && x.t_call <= y.t_drop_end);
+        if !explained && problem.is_none() {
+            problem = Some((
+                "refused_without_a_live_guard".into(),
+                format!(
+                    "thread {} asked for the {} guard of {} during logical time [{}, {}] and was refused, but no conflicting guard granted to another thread can have been alive then (the nearest granted guards: {:?})",
+                    x.thread,
+                    if x.excl { "exclusive" } else { "shared" },
+                    s.label(),
+                    x.t_call,
+                    x.t_ret,
+                    granted.iter().filter(|y| y.thread != x.thread && y.t_drop_end + 50 >= x.t_call && y.t_call <= x.t_ret + 50).take(4).collect::<Vec<_>>()
+                ),
+            ));
+        }
+    }
+    // and the other direction: two conflicting guards that were surely alive at the same time
+    for (i, x) in granted.iter().enumerate() {
+        for y in granted[i + 1..].iter() {
+            if y.t_call > x.t_drop_end {
+                break;
+            }
+            if x.thread != y.thread && (x.excl || y.excl) && x.t_ret < y.t_drop_start && y.t_ret < x.t_drop_start && problem.is_none() {
+                problem = Some(("conflicting_guards_both_live".into(), format!("{}: {:?} and {:?} were both surely alive at one instant", s.label(), x, y)));
+            }
+        }
+    }
+    if probe(world, s) != Probe::Free && problem.is_none() {
+        problem = Some(("not_released".into(), format!("after all threads finished {} probes as {:?}", s.label(), probe(world, s))));
+    }
+    rep.metric("upgrade_race_cases", 1);
+    rep.metric("upgrade_race_attempts", atts.len() as i64);
+    rep.metric("upgrade_race_refusals_explained", (refused - problem.is_some() as usize) as i64);
+    rep.metric("upgrade_race_granted", granted.len() as i64);
+    if let Some((k, m)) = problem {
+        rep.violation(&k, &m, case_no, J::obj().set("kind", "upgrade race").set("attackers", attackers).set("rounds", rounds));
+    } else if refused > 0 && granted.len() > 1 {
+        rep.nontrivial(mix(0x0808, mix(attackers as u64, (refused.min(1 << 20) as u64) << 8 | (granted.len().min(255) as u64))));
+    }
+}
+
 pub fn run(args: &Args) -> i32 {
     let mut rep = Report::new(args);
     let small = args.has("--small"); // Miri-sized
@@ -735,7 +932,9 @@ pub fn run(args: &Args) -> i32 {
             break;
         }
         let mut rng = Rng::new(args.case_seed(c));
-        if c % stress_every == stress_every - 1 || args.has("--stress-only") {
+        if !small && (c % stress_every == stress_every / 2 || (args.has("--stress-only") && c % 2 == 1)) {
+            guard_case(&mut rep, c, |rep| upgrade_race(&mut rng, rep, c));
+        } else if c % stress_every == stress_every - 1 || args.has("--stress-only") {
             let (th, ops) = if small { (3, 40) } else { (rng.range(2, 16), if args.thorough { 6000 } else { 1500 }) };
             guard_case(&mut rep, c, |rep| stress(&mut rng, rep, c, th, ops));
         } else {
